@@ -40,7 +40,8 @@ def determinism(opts):
         runs = runs_override or DEF_RUNS[prop]
         seen = []
         for hs, workers in (("0", "16"), ("12345", "4"), ("7", "1"), ("0", "16")):
-            rc, dg, out = _run_check(prop, runs, {"PYTHONHASHSEED": hs, "DSIM_WORKERS": workers})
+            rc, dg, out = _run_check(prop, runs, {"PYTHONHASHSEED": hs, "DSIM_WORKERS": workers,
+                                                  "VERIF_SEED": opts.get("seed", "0")})
             if rc not in (0, 1) or dg is None:
                 print(f"determinism: {prop} hashseed={hs} workers={workers}: harness failure rc={rc}\n{out[-2000:]}")
                 bad += 1
